@@ -64,6 +64,14 @@ Proof.
   intros m H. simpl in H.
   repeat (destruct H as [<-|H]; [split; [comp | vm_compute; discriminate]|]). contradiction.
 Qed.
+(** a collector behind Dispatch, Box<C>, Arc<C> gets every span call itself: no method falls back to a provided default *)
+Lemma forwarding_transparent :
+  forall w m, In w wrappers -> In m forwarded -> lookup_row model_shapes (fwd_key w m) = Some (fwd_row m).
+Proof.
+  intros w m Hw Hm. unfold wrappers, forwarded in *. simpl in Hw, Hm.
+  repeat (destruct Hw as [<-|Hw]; [repeat (destruct Hm as [<-|Hm]; [vm_compute; reflexivity|]); contradiction|]).
+  contradiction.
+Qed.
 Lemma futures_captures :
   lookup_row model_shapes "futures::WithCollector::with_current_collector" = lookup_row model_shapes "WithCollector::with_current_collector".
 Proof. comp. Qed.
@@ -127,45 +135,47 @@ Qed.
 
 (** * Meaning of the own-collector micro-actions *)
 Theorem md_own : forall d,
-  (forall e, md (MEnterE e) d = own_sem KEnter (val_of d (e_holder e)) (e_tid e) None d) /\
-  (forall e, md (MExitE e) d = own_sem KExit (val_of d (e_holder e)) (e_tid e) None d) /\
-  (forall n t, md (MRelease n t) d = own_sem KTryClose (val_of d n) t None d) /\
-  (forall r t, md (MRecord r t) d = own_sem KRecord (val_of d r) t None d) /\
-  (forall r r' t, md (MFollows r r' t) d = own_sem KFollows (val_of d r) t (id_of_val (val_of d r')) d) /\
-  (forall r n t, md (MCloneTo r n t) d = set_val (own_sem KCloneSpan (val_of d r) t None d) n (val_of d r)).
+  (forall e, md0 (MEnterE e) d = own_sem KEnter (val_of d (e_holder e)) (e_tid e) None d) /\
+  (forall e, md0 (MExitE e) d = own_sem KExit (val_of d (e_holder e)) (e_tid e) None d) /\
+  (forall n t, md0 (MRelease n t) d = own_sem KTryClose (val_of d n) t None d) /\
+  (forall r t, md0 (MRecord r t) d = own_sem KRecord (val_of d r) t None d) /\
+  (forall r r' t, md0 (MFollows r r' t) d = own_sem KFollows (val_of d r) t (id_of_val (val_of d r')) d) /\
+  (forall r n t, md0 (MCloneTo r n t) d = set_val (own_sem KCloneSpan (val_of d r) t None d) n (val_of d r)).
 Proof.
   intros d. repeat apply conj.
-  - intros e. cbn [md own_sem]. destruct (val_of d (e_holder e)); reflexivity.
-  - intros e. cbn [md own_sem]. destruct (val_of d (e_holder e)); reflexivity.
-  - intros n t. cbn [md own_sem]. destruct (val_of d n); reflexivity.
-  - intros r t. cbn [md own_sem]. destruct (val_of d r); reflexivity.
-  - intros r r' t. cbn [md own_sem]. destruct (val_of d r); try reflexivity.
-  - intros r n t. cbn [md own_sem]. destruct (val_of d r); reflexivity.
+  - intros e. cbn [md0 own_sem]. destruct (val_of d (e_holder e)); reflexivity.
+  - intros e. cbn [md0 own_sem]. destruct (val_of d (e_holder e)); reflexivity.
+  - intros n t. cbn [md0 own_sem]. destruct (val_of d n); reflexivity.
+  - intros r t. cbn [md0 own_sem]. destruct (val_of d r); reflexivity.
+  - intros r r' t. cbn [md0 own_sem]. destruct (val_of d r); try reflexivity.
+  - intros r n t. cbn [md0 own_sem]. destruct (val_of d r); reflexivity.
 Qed.
 
 (** * Meaning of the constructor micro-actions: the rows of Span::new* / child_of / span! / current / or_current *)
 Theorem md_new_from_shapes : forall n t h p d,
-  md (MNewSpan n t h p) d = ctor_run model_shapes (new_entry h p) d n t (new_parg d p) (new_enabled d t h) SNone.
+  md0 (MNewSpan n t h p) d = ctor_run model_shapes (new_entry h p) d n t (new_parg d p) (new_enabled d t h) SNone.
 Proof.
-  intros n t h p d. unfold ctor_run, new_entry, new_parg, new_enabled. cbn [md].
+  intros n t h p d. unfold ctor_run, new_entry, new_parg, new_enabled. cbn [md0].
   destruct (cur_default d t) as [|pc]; destruct h as [[|]|]; destruct p; (vm_compute; reflexivity).
 Qed.
 
 Theorem md_current_from_shapes : forall n t d,
-  md (MCurrentTo n t) d = ctor_run model_shapes row_current d n t None true SNone.
+  md0 (MCurrentTo n t) d = ctor_run model_shapes row_current d n t None true SNone.
 Proof.
-  intros n t d. unfold ctor_run. cbn [md]. unfold do_current.
+  intros n t d. unfold ctor_run. cbn [md0]. unfold do_current.
   destruct (cur_default d t) as [|pc]; [vm_compute; reflexivity|].
-  cbv -[stack_of d_log d_vals d_defaults d_next d_made d_dropped d_disp]. destruct (stack_of (d_log d) (N.pos pc) t); reflexivity.
+  cbv -[stack_of per_handle d_log d_vals d_defaults d_next d_made d_dropped d_disp d_hid d_hlog].
+  destruct (per_handle (N.pos pc)); [reflexivity|]. destruct (stack_of (d_log d) (N.pos pc) t); reflexivity.
 Qed.
 
 Theorem md_or_current_from_shapes : forall n t d,
-  md (MOrCurrent n t) d = ctor_run model_shapes row_or_current d n t None true (val_of d n).
+  md0 (MOrCurrent n t) d = ctor_run model_shapes row_or_current d n t None true (val_of d n).
 Proof.
-  intros n t d. unfold ctor_run. cbn [md]. unfold do_current.
+  intros n t d. unfold ctor_run. cbn [md0]. unfold do_current.
   destruct (val_of d n) eqn:Ev; [| vm_compute; reflexivity ..].
   destruct (cur_default d t) as [|pc]; [vm_compute; reflexivity|].
-  cbv -[stack_of d_log d_vals d_defaults d_next d_made d_dropped d_disp]. destruct (stack_of (d_log d) (N.pos pc) t); reflexivity.
+  cbv -[stack_of per_handle d_log d_vals d_defaults d_next d_made d_dropped d_disp d_hid d_hlog].
+  destruct (per_handle (N.pos pc)); [reflexivity|]. destruct (stack_of (d_log d) (N.pos pc) t); reflexivity.
 Qed.
 
 (** * The interpreter tells the shapes apart: the rows the two seeded mutants of /verif/seeded/C03-{A,B} produce *)
